@@ -80,6 +80,7 @@ func corpus() []ccase {
 		{"ceil", a(pn("-1.0000000000000000000000000000000000001")), ""}, {"ceil", a(pn("1e-40")), ""}, {"ceil", a(pn("-1e-40")), ""},
 		{"floor", a(fl(-0.5)), ""}, {"floor", a(fl(0.5)), ""}, {"floor", a(fl(-1.5)), ""}, {"floor", a(pn("-1.0000000000000000000000000000000000001")), ""},
 		{"floor", a(pn("99999999999.5")), ""}, {"floor", a(pn("-1e-40")), ""}, {"floor", a(cty.PositiveInfinity), ""}, {"ceil", a(cty.NegativeInfinity), ""},
+		{"int", a(pn("9223372036854775808.5")), "non-integer in [2^63, 2^64): seeded regression 2"}, {"int", a(pn("-18446744073709551615.75")), ""}, {"int", a(pn("9223372036854775807.5")), ""},
 		{"int", a(fl(-1.5)), ""}, {"int", a(fl(1.5)), ""}, {"int", a(pn("-0.9999999999999999999999999")), ""}, {"int", a(pn("1e300")), ""}, {"int", a(cty.PositiveInfinity), ""},
 		{"int", a(fl(math.Inf(-1))), "fresh infinity"},
 		{"abs", a(fl(math.Copysign(0, -1))), ""}, {"abs", a(cty.NegativeInfinity), ""}, {"negate", a(cty.Zero), ""},
@@ -278,6 +279,22 @@ func runCorpus(c *core.Ctx, fns []fnDef, base int64) {
 		}
 	}
 	c.Exhaustive(fmt.Sprintf("ceil/floor/int/signum/abs/negate on every member of the number pool (%d numbers): %d cases", len(gen.NumberPool()), cnt))
+
+	cnt = 0
+	for _, v := range boundaryFractions() {
+		for _, fn := range []string{"ceil", "floor", "int", "signum", "abs", "negate"} {
+			run(fn, []cty.Value{v}, "enumerated", "boundary-fraction")
+			cnt++
+		}
+		for _, fn := range []string{"min", "max", "add", "subtract", "multiply", "divide", "modulo", "lt", "gte"} {
+			run(fn, []cty.Value{v, fl(0.5)}, "enumerated", "boundary-fraction")
+			run(fn, []cty.Value{n(1), v}, "enumerated", "boundary-fraction")
+			cnt += 2
+		}
+		run("format", []cty.Value{sv("%d|%f|%v"), v, v, v}, "enumerated", "boundary-fraction")
+		cnt++
+	}
+	c.Exhaustive(fmt.Sprintf("boundary fractions: +-{2^31,2^32,2^53,2^63,2^64,2^127,10^18,10^19,10^30} + {0,+-0.25,+-0.5,+-1,+-1.5} (parsed at 512 bits and via arithmetic) and B*(1+-2^-70), %d numbers x 6 unary and 9 binary number functions and format %%d/%%f/%%v: %d cases", len(boundaryFractions()), cnt))
 
 	cnt = 0
 	small := []cty.Value{n(0), n(1), n(-1), n(2), n(-7), n(7), fl(0.5), fl(-0.5), fl(2.5), pn("0.1"), cty.PositiveInfinity, cty.NegativeInfinity, fl(math.Copysign(0, -1)), pn("1e30"), n(math.MaxInt64)}
